@@ -116,7 +116,10 @@ func (c *ExchangeContent) inheritPropertiesFromUserType(
 			return errors.New(jerr.RuntimeFailure)
 		}
 
-		p := c.ObjectProperty(*(cc.Key))
+		// A property written by its name and a property whose key is described by
+		// a user type (the key shortcut) are different ones, even if they look the
+		// same ("@key" and @key), the schema allows them side by side.
+		p := c.objectProperty(*(cc.Key), cc.IsKeyUserTypeRef)
 		if p != nil && p.InheritedFrom == "" {
 			// Don't allow to override original properties.
 			return fmt.Errorf(jerr.NotAllowedToOverrideTheProperty,
@@ -156,6 +159,15 @@ func (c *ExchangeContent) ToUsedUserTypes(uut *StringSet) {
 
 func (c *ExchangeContent) IsObjectHaveProperty(k string) bool {
 	return c.ObjectProperty(k) != nil
+}
+
+func (c *ExchangeContent) objectProperty(k string, isKeyUserTypeRef bool) *ExchangeContent {
+	for _, v := range c.Children {
+		if *(v.Key) == k && v.IsKeyUserTypeRef == isKeyUserTypeRef {
+			return v
+		}
+	}
+	return nil
 }
 
 func (c *ExchangeContent) ObjectProperty(k string) *ExchangeContent {
